@@ -78,7 +78,8 @@ def summarised(ex, node, st, kind):
         if len(outs) != 1 or outs[0][0] != "fall":
             raise OutOfReach(f"comp_{k}: summary prelude must be straight-line")
     for a in ret.value.args:
-        argvals.append(sub.eval(a, cstate))
+        v = sub.eval(a, cstate)
+        argvals.append(v.val if isinstance(v, VOpt) else v)
     if len(argvals) < 2 or not isinstance(argvals[0], VSeq):
         raise OutOfReach(f"comp_{k}: summary arguments")
     where = f"{ex.relpath}:{node.lineno}"
@@ -225,6 +226,13 @@ def do_comp(ex, node, st, kind):
             st.facts.append(r == z3.Lambda([c], z3.And(dom, *conds) if conds else dom))
             ex.card_of(st, r)
             return VSet(r)
+        if kind == "list" and isinstance(body, VStr) and body.term.eq(c):
+            # [c for c in s if cond]: its order is the set's iteration order; only order-free consumers
+            # (frozenset / set / len) accept the value
+            r = z3.Const(S.fresh_name("fset"), S.CSetS)
+            st.facts.append(r == z3.Lambda([c], z3.And(dom, *conds) if conds else dom))
+            ex.card_of(st, r)
+            return VSetList(VSet(r))
         raise OutOfReach("list comprehension over a set/dict (order-dependent)")
     # concrete sources: unroll
     if isinstance(src, (VTup, VPyList)):
@@ -277,6 +285,13 @@ def do_comp(ex, node, st, kind):
     return materialise(ex, st, GenDesc(src, i, body, rng), "list")
 
 
+class VSetList(S.V):
+    """a list built by iterating a set: demonic order, accepted only by order-free consumers"""
+
+    def __init__(self, vset):
+        self.vset = vset
+
+
 class GenSet(S.V):
     """generator over the members of a set / the entries of a dict: bound variable c, domain, body"""
 
@@ -319,6 +334,25 @@ def b_all(ex, st, node, args, kw):
 
 
 from . import builtins_model as _B  # noqa: E402
+_orig_frozenset = _B.BUILTINS["frozenset"]
+_orig_len = _B.BUILTINS["len"]
+
+
+def _frozenset(ex, st, node, args, kw):
+    if args and isinstance(args[0], VSetList):
+        return args[0].vset
+    return _orig_frozenset(ex, st, node, args, kw)
+
+
+def _len(ex, st, node, args, kw):
+    if args and isinstance(args[0], VSetList):
+        return _orig_len(ex, st, node, [args[0].vset], kw)
+    return _orig_len(ex, st, node, args, kw)
+
+
+_B.BUILTINS["frozenset"] = _frozenset
+_B.BUILTINS["set"] = _frozenset
+_B.BUILTINS["len"] = _len
 _B.BUILTINS["any"] = b_any
 _B.BUILTINS["all"] = b_all
 _orig_tuple = _B.BUILTINS["tuple"]
